@@ -19,7 +19,7 @@ TOKEN_TEXT = ["(", ")", "{", "}", "[", "]", ",", ".", "..", "-", "-=", "+", "+="
               "<", "<=", "&", "&=", "|", "|=", "^", "^=", "%", "%=", ">>", ">>=", "<<", "<<=", "&&", "||", "~", "#", "x", "\"s\"", "\"a${1}b\"",
               "1", "Self", "catch", "class", "else", "false", "finally", "for", "fn", "if", "import", "as", "in", "nil", "return", "self",
               "super", "break", "continue", "throw", "true", "try", "var", "while", "derive", "constructor", "static", "new", "1.5", "\"m\""]
-SCAN_GROUPS = ["Broad", "Numbers", "Strings6", "Escapes", "Words", "Ops2"]
+SCAN_GROUPS = ["Broad", "Numbers", "Strings6", "Escapes", "Words", "Ops2", "Lines", "EscapesU"]
 
 
 def scanner_part(rep, dev, tier, groups=SCAN_GROUPS):
